@@ -40,6 +40,24 @@ def _enums():
     return dv, Command, Days
 
 
+def _num(value, form):
+    """The same number as another kind of int: a member of an IntEnum, a bool (0/1), an int subclass."""
+    if form == "intenum" and isinstance(value, int):
+        import enum
+
+        return enum.IntEnum("Preset", {"VALUE": value}).VALUE
+    if form == "bool" and value in (0, 1):
+        return bool(value)
+    if form == "subclass" and isinstance(value, int):
+        class Minutes(int):
+            def __str__(self):
+                return f"{int(self)} min"
+
+            __repr__ = __str__
+        return Minutes(value)
+    return value
+
+
 async def call(api, op: str, a: Dict[str, Any], remote=None):
     """Invoke the real API method for op with JSON-able args a."""
     dv, Command, Days = _enums()
@@ -50,7 +68,7 @@ async def call(api, op: str, a: Dict[str, Any], remote=None):
     if op == "get_state":
         return await api.get_state()
     if op in ("turn_on", "turn_on_timer"):
-        return await api.control_device(Command.ON, a.get("minutes", 0))
+        return await api.control_device(Command.ON, _num(a.get("minutes", 0), a.get("num_form")))
     if op == "turn_off":
         if "minutes" in a:
             return await api.control_device(Command.OFF, a["minutes"])
@@ -78,7 +96,7 @@ async def call(api, op: str, a: Dict[str, Any], remote=None):
     if op == "stop":
         return await api.stop()
     if op == "set_position":
-        return await api.set_position(a["position"])
+        return await api.set_position(_num(a["position"], a.get("num_form")))
     if op == "get_shutter_state":
         return await api.get_shutter_state()
     if op == "get_breeze_state":
@@ -236,6 +254,8 @@ def gen_args(op: str, r, world: Dict[str, Any], hostile: bool = True) -> Dict[st
     if op == "turn_on_timer":
         x = r.random()
         lim = 2 ** 32 // 60
+        if hostile and x < 0.12:
+            return {"minutes": r.choice([1, 30, 90, 1440, r.randrange(1, 5000)]), "num_form": r.choice(["intenum", "subclass", "bool"])}
         if not hostile or x < 0.5:
             return {"minutes": r.choice([1, 2, 59, 60, 90, 1439, 1440, r.randrange(1, 100000)])}
         if x < 0.8:
@@ -302,6 +322,11 @@ def gen_args(op: str, r, world: Dict[str, Any], hostile: bool = True) -> Dict[st
                 a["days_form"] = r.choice(["list", "tuple"])
         return a
     if op == "set_position":
+        x = r.random()
+        if x < 0.08:
+            return {"position": r.randrange(0, 2), "num_form": "bool"}
+        if x < 0.25:
+            return {"position": r.randrange(0, 101), "num_form": r.choice(["intenum", "subclass"])}
         return {"position": r.randrange(0, 101)}
     if op == "login2":
         return {"device_type": r.choice(["BREEZE", "RUNNER", "RUNNER_MINI"])}
